@@ -20,7 +20,6 @@ pub mod quick_xml {
 }
 pub mod zip { pub mod result { pub struct ZipError; } }
 pub mod vba { pub struct VbaError; }
-pub mod crate_ { }
 #[verifier::external_type_specification] #[verifier::external_body] pub struct ExIoError(std::io::Error);
 
 //@@ item src/xlsb/mod.rs enum XlsbError
@@ -337,13 +336,13 @@ impl<'a> RecordIter<'a> {
             }
 //@@ before /return Ok\(len\)/
                 proof { assert(boundary(s0, (k - 1) as nat, prev)); }
-//@@ after /let _ = self\.fill_buffer\(buf\)\?;/#0of2
+//@@ after? /while [^{]*\{\s*let _ = self\.fill_buffer[^;]*;/
                     proof {
                         lemma_rec_read(cur);
                         lemma_skip_n_step(s0, k);
                         prev = cur; cur = rec_rest(prev); k = k + 1;
                     }
-//@@ after /let _ = self\.fill_buffer\(buf\)\?;/#1of2
+//@@ after? /\}\s*let _ = self\.fill_buffer[^;]*;/
                 proof {
                     lemma_rec_read(cur);
                     lemma_skip_n_step(s0, k);
@@ -352,23 +351,32 @@ impl<'a> RecordIter<'a> {
 //@@ loop 0
             invariant
                 s0 == old(self).rem(),
-                cur == self.rem(),
-                boundary(s0, k, cur),
+                // between records the reader stands at a record boundary of the stream (never inside a record)
+                //# C03.skip_at_record_boundary
+                cur == self.rem() && boundary(s0, k, cur),
             decreases self.rem().len(),
 //@@ loop 1
                     invariant
                         s0 == old(self).rem(),
-                        cur == self.rem(),
-                        boundary(s0, k, cur),
+                        //# C03.skip_block_at_record_boundary
+                        cur == self.rem() && boundary(s0, k, cur),
                         cur.len() < h,
                     decreases self.rem().len(),
 //@@ end
 //@@ endimpl
 
-// ---- A-enc: UTF-16LE decoding (encoding_rs::UTF_16LE.decode) and Cow<str>
-// TRUSTED: A-enc -- `dec16` stands for encoding_rs' UTF-16LE decoder (without BOM handling surprises: `decode` performs BOM
-// sniffing, see report); nothing is assumed about it beyond being a function of the bytes.
+// ---- A-enc: UTF-16LE decoding (encoding_rs) and Cow<str>
+// TRUSTED: A-enc -- `dec16` stands for encoding_rs' UTF-16LE decoder proper (`decode_without_bom_handling`: malformed sequences
+// replaced by U+FFFD); nothing is assumed about it beyond being a function of the bytes.
 pub uninterp spec fn dec16(s: Seq<u8>) -> Seq<char>;
+// TRUSTED: A-enc -- encoding_rs documents `Encoding::decode` as decoding "with BOM sniffing": if the input starts with the BOM of
+// UTF-8 (EF BB BF), UTF-16LE (FF FE) or UTF-16BE (FE FF) the BOM is removed and the rest is decoded in the BOM's encoding,
+// whatever `self` is. `dec_sniffed` stands for that result (uninterpreted).
+pub uninterp spec fn dec_sniffed(s: Seq<u8>) -> Seq<char>;
+pub open spec fn has_bom(s: Seq<u8>) -> bool {
+    (s.len() >= 2 && s[0] == 0xFF && s[1] == 0xFE) || (s.len() >= 2 && s[0] == 0xFE && s[1] == 0xFF)
+    || (s.len() >= 3 && s[0] == 0xEF && s[1] == 0xBB && s[2] == 0xBF)
+}
 /// the text of a Cow<str>
 pub uninterp spec fn cow_chars(c: Cow<'_, str>) -> Seq<char>;
 // TRUSTED: A-std -- Cow::into_owned returns the owned form of the same text
@@ -377,10 +385,6 @@ pub assume_specification<'a, B> [std::borrow::Cow::<'_, B>::into_owned] (c: std:
     where B: std::marker::MetaSized + std::borrow::ToOwned + ?Sized,
     ensures r == cow_owned(c);
 // TRUSTED: A-std -- for B = str the owned form is the String with the same characters
-#[verifier::external_body]
-pub proof fn axiom_cow_owned_str(c: Cow<'_, str>)
-    ensures cow_owned::<str>(c)@ == cow_chars(c),
-{}
 #[verifier::external_body]
 pub proof fn axiom_cow_owned_str_all()
     ensures forall|c: Cow<'_, str>| (#[trigger] cow_owned::<str>(c))@ == cow_chars(c),
@@ -392,6 +396,11 @@ impl Utf16LeStandIn {
     // TRUSTED: A-enc
     #[verifier::external_body]
     pub fn decode<'a>(&self, bytes: &'a [u8]) -> (r: (Cow<'a, str>, Encoding, bool))
+        ensures cow_chars(r.0) == (if has_bom(bytes@) { dec_sniffed(bytes@) } else { dec16(bytes@) }),
+    { unimplemented!() }
+    // TRUSTED: A-enc (what a repaired wide_str would call)
+    #[verifier::external_body]
+    pub fn decode_without_bom_handling<'a>(&self, bytes: &'a [u8]) -> (r: (Cow<'a, str>, bool))
         ensures cow_chars(r.0) == dec16(bytes@),
     { unimplemented!() }
 }
@@ -408,8 +417,12 @@ impl Utf16LeStandIn {
             && *final(str_len) == *old(str_len),
         //# C03,C19.wide_str_len
         buf@.len() >= 4 && r is Ok ==> *final(str_len) == 4 + 2 * le32(buf@),
+        // [MS-XLSB] 2.5.168 XLWideString: rgchData is an array of cch UTF-16LE code units -- all of them are text
         //# C03,C19.wide_str_text
-        buf@.len() >= 4 && r is Ok ==> cow_chars(r->Ok_0) == dec16(buf@.subrange(4, 4 + 2 * le32(buf@))),
+        buf@.len() >= 4 && r is Ok && !has_bom(buf@.subrange(4, 4 + 2 * le32(buf@))) ==> cow_chars(r->Ok_0) == dec16(buf@.subrange(4, 4 + 2 * le32(buf@))),
+        // ... also when the first characters happen to look like a byte order mark (U+FEFF, U+FFFE, or U+BBEF followed by U+xxBF)
+        //# C19.wide_str_text_leading_bom
+        buf@.len() >= 4 && r is Ok && has_bom(buf@.subrange(4, 4 + 2 * le32(buf@))) ==> cow_chars(r->Ok_0) == dec16(buf@.subrange(4, 4 + 2 * le32(buf@))),
 //@@ end
 
 // ---- BrtWsDim ([MS-XLSB] 2.4.820): rwFirst u32 @0, rwLast u32 @4, colFirst u32 @8, colLast u32 @12
